@@ -199,6 +199,7 @@ fn run_case(o: &Opts, case_seed: u64, case_index: u64) -> CaseReport {
 }
 
 fn run(o: &Opts) -> i32 {
+    crate::prog::PEEK_NZ.store(crate::prog::peek_nz_env(), std::sync::atomic::Ordering::Relaxed);
     let t0 = Instant::now();
     let mut evaluations = 0u64;
     let mut nontrivial = 0u64;
